@@ -94,6 +94,10 @@ std::string chain_text(const MChain& m) {
 }
 PDU* layer_at(PDU* top, size_t d) { while (top && d--) top = top->inner_pdu(); return top; }
 size_t depth_of(const PDU* top) { size_t n = 0; for (; top; top = top->inner_pdu()) ++n; return n; }
+const PDU* innermost(const PDU* top) { while (top && top->inner_pdu()) top = top->inner_pdu(); return top; }
+// The caching wrapper reports the wrapped class's type flag (open finding C13:pducacher-masquerade), so a child that asks its
+// parent for addresses (TCP, UDP, ICMPv6 ...) downcasts the wrapper: the wrapper is therefore never made a parent here.
+bool is_cacher(const PDU* p) { return p && demangled(typeid(*p)).find("PDUCacher<") != std::string::npos; }
 
 struct Machine {
     Ctx& ctx;
@@ -217,6 +221,7 @@ struct Machine {
         if (a < 0 || b < 0) return;
         if (depth_of(slots[a].top()) + depth_of(slots[b].top()) > 12) return;
         MChain add = slots[b].model;
+        if (is_cacher(innermost(slots[a].top()))) { ctx.excluded("child-below-pdu-cacher (C13 open finding)"); return; }
         if (slots[a].packet) { *slots[a].packet /= *slots[b].top(); }
         else { *slots[a].root /= *slots[b].top(); }
         slots[a].model.insert(slots[a].model.end(), add.begin(), add.end());
@@ -229,6 +234,7 @@ struct Machine {
         if (depth_of(slots[a].top()) + depth_of(slots[b].top()) > 12) return;
         const ClassOps* o = ops_for(*slots[a].root);
         if (!o) return;
+        if (is_cacher(innermost(slots[a].root))) { ctx.excluded("child-below-pdu-cacher (C13 open finding)"); return; }
         MChain m = slots[a].model;
         m.insert(m.end(), slots[b].model.begin(), slots[b].model.end());
         PDU* r = o->divide(*slots[a].root, *slots[b].top());
@@ -318,6 +324,44 @@ struct Machine {
         ctx.label("copy-assign");
         if (a != b) { check_copy_equal(*slots[b].root, *slots[a].root, "copy-assign", slots[b].model[0].unknown); resync(a); resync(b); }
     }
+    // copy assignment INSIDE one chain: the target is a descendant of the source (IP-in-IP, stacked tags ...). The source is
+    // read while the target's own sub-chain is what gets replaced, so the copy must be taken before anything is destroyed.
+    // (The opposite direction - assigning a layer from its own descendant - destroys the source first and is not generated.)
+    void op_assign_from_ancestor() {
+        int a = pick_live();
+        if (a < 0 || slots[a].packet || !slots[a].root) return;
+        const ClassOps* o = ops_for(*slots[a].root);
+        if (!o || depth_of(slots[a].root) > 4) return;
+        if (is_cacher(innermost(slots[a].root))) { ctx.excluded("child-below-pdu-cacher (C13 open finding)"); return; }
+        int c = pick_free();
+        if (c == a) return;
+        PDU* outer = o->copy_construct(*slots[a].root);
+        PDU* inner = o->copy_construct(*slots[a].root);
+        {
+            std::vector<std::string> prog;
+            BuildOpts bo;
+            apply_setters(*inner, s, bo, prog);
+            if (IP* ip = dynamic_cast<IP*>(inner)) if (ip->src_addr() == IPv4Address((uint32_t)0)) ip->src_addr("10.0.0.9");
+        }
+        MChain before = slots[a].model;
+        const size_t d2 = before.size();
+        MChain mi = snapshot(inner);
+        before.insert(before.end(), mi.begin(), mi.end());
+        PDU* last = outer;
+        while (last->inner_pdu()) last = last->inner_pdu();
+        last->inner_pdu(inner);
+        slots[c].root = outer;
+        slots[c].model = before;
+        step("s" + std::to_string(c) + " = copy of s" + std::to_string(a) + " with a modified copy of itself stacked below (" + chain_text(before) + ")");
+        check_all(trace.back());
+        o->copy_assign(*inner, *outer);
+        MChain after(before.begin(), before.begin() + d2);
+        after.push_back(before[0]);                                   // the target takes the source's own state ...
+        after.insert(after.end(), before.begin() + 1, before.end());  // ... and a copy of everything that was below the source
+        slots[c].model = after;
+        step("s" + std::to_string(c) + ".layer(" + std::to_string(d2) + ") = s" + std::to_string(c) + " (assignment from its own ancestor)");
+        ctx.label("assign-from-ancestor");
+    }
     void op_move(bool assign) {
         int a = pick_live();
         if (a < 0 || slots[a].packet) return;
@@ -365,6 +409,7 @@ struct Machine {
         size_t d = s.pick(depth_of(slots[a].top()));
         if (d + depth_of(slots[b].root) > 12) return;
         PDU* host = layer_at(slots[a].top(), d);
+        if (is_cacher(host)) { ctx.excluded("child-below-pdu-cacher (C13 open finding)"); return; }
         host->inner_pdu(slots[b].root);
         slots[b].root = nullptr;
         slots[a].model.resize(d + 1);
@@ -379,6 +424,7 @@ struct Machine {
         size_t d = s.pick(depth_of(slots[a].top()));
         if (d + depth_of(slots[b].top()) > 12) return;
         PDU* host = layer_at(slots[a].top(), d);
+        if (is_cacher(host)) { ctx.excluded("child-below-pdu-cacher (C13 open finding)"); return; }
         MChain add = slots[b].model;  // b may be a itself: cloned before the old children are destroyed? the API clones first
         host->inner_pdu(*slots[b].top());
         if (a == b) { resync(a); step("s" + std::to_string(a) + ".layer(" + std::to_string(d) + ").inner_pdu(own root by reference)"); ctx.label("inner_pdu(ref-self)"); return; }
@@ -632,7 +678,7 @@ void prop(Src& s, Ctx& ctx) {
     m.check_all("construct");
     for (unsigned i = 0; i < steps; ++i) {
         size_t before = m.trace.size();
-        switch (s.weighted({4, 3, 2, 2, 2, 4, 2, 2, 1, 2, 2, 3, 1, 4, 6, 2, 2})) {
+        switch (s.weighted({4, 3, 2, 2, 2, 4, 2, 2, 1, 2, 2, 3, 1, 4, 6, 2, 2, 1})) {
             case 0: m.op_construct(); break;
             case 1: m.op_stack_assign(); break;
             case 2: m.op_divide(); break;
@@ -649,7 +695,8 @@ void prop(Src& s, Ctx& ctx) {
             case 13: m.op_mutate(); break;
             case 14: m.op_packet(); break;
             case 15: m.op_copy_inner(false); break;
-            default: m.op_copy_inner(true); break;
+            case 16: m.op_copy_inner(true); break;
+            default: m.op_assign_from_ancestor(); break;
         }
         if (m.trace.size() != before) m.check_all(m.trace.back());
     }
